@@ -276,16 +276,15 @@ theorem parse_size_pos {buf : Bytes} {off v n : Nat} (h : parseTlNum buf off = .
   have := tlNumSize_pos v
   omega
 
-/-- what the translated loop gives, read off the model loop: the model's result when the components end exactly at
-    the declared end, `IndexError` when one of them went past it -/
-def loopSpec (off length : Nat) (r : Except PyErr (List Bytes × Nat)) : Except PyErr (Int × Int × List Bytes) :=
-  match r with
-  | .error e => .error e
-  | .ok (cs, off') => if off' = off + length then .ok ((off' : Int), (0 : Int), cs) else .error .indexError
+/-- the state the translated loop returns for a result of the model loop: the offset reached, `length` = 0 (the loop
+    ends only when the declared Length is used up exactly), the components -/
+def loopRes (r : List Bytes × Nat) : Int × Int × List Bytes := ((r.2 : Int), (0 : Int), r.1)
 
+/-- the translated `while length > 0` loop IS the model loop, for every buffer, offset, remaining length and
+    accumulator (including the `IndexError` of a component that exceeds what is left of the declared Length) -/
 theorem loop_eq (buf : Bytes) : ∀ (fuel off length : Nat) (acc : List Bytes), length < fuel →
     Gen.NameGen.decode_loop_1 buf fuel ((off : Int), (length : Int), acc)
-      = loopSpec off length (Name.decodeLoop buf fuel off length acc) := by
+      = (Name.decodeLoop buf fuel off length acc).map loopRes := by
   intro fuel
   induction fuel with
   | zero => intro off length acc h; omega
@@ -294,7 +293,7 @@ theorem loop_eq (buf : Bytes) : ∀ (fuel off length : Nat) (acc : List Bytes), 
     rw [Gen.NameGen.decode_loop_1, Name.decodeLoop]
     by_cases hz : length = 0
     · subst hz
-      simp [loopSpec]
+      simp [loopRes]
       rfl
     · rw [if_pos (by omega), if_neg hz]
       cases h1 : parseTlNum buf off with
@@ -311,20 +310,13 @@ theorem loop_eq (buf : Bytes) : ∀ (fuel off length : Nat) (acc : List Bytes), 
           simp only [ok_bind]
           have p1 := parse_size_pos h1
           have p2 := parse_size_pos h2
-          by_cases hov : st + sl + lc > length
-          · rw [if_pos (by omega)]
-            obtain ⟨f', rfl⟩ : ∃ f', f = f' + 1 := ⟨f - 1, by omega⟩
-            have z : length - (off + st + sl + lc - off) = 0 := by omega
-            rw [z, Name.decodeLoop, if_pos rfl]
-            simp only [loopSpec]
-            rw [if_neg (by omega)]
-          · rw [if_neg (by omega)]
+          by_cases hov : off + st + sl + lc - off > length
+          · rw [if_pos (by omega), if_pos hov]; rfl
+          · rw [if_neg (by omega), if_neg hov]
             have e1 : ((off : Int) + (st : Int) + ((sl : Int) + (lc : Int))) = ((off + st + sl + lc : Nat) : Int) := by omega
             have e2 : ((length : Int) - ((off : Int) + (st : Int) + ((sl : Int) + (lc : Int)) - (off : Int)))
                 = ((length - (off + st + sl + lc - off) : Nat) : Int) := by omega
             rw [e2, e1, slice_nat buf off (off + st + sl + lc) _ _ rfl rfl, ih _ _ _ (by omega)]
-            have e3 : off + st + sl + lc + (length - (off + st + sl + lc - off)) = off + length := by omega
-            simp only [loopSpec, e3]
 
 theorem unpackAt_error {buf : Bytes} {a n : Nat} {e : PyErr} (h : unpackAt buf a n = .error e) : e = .structError := by
   unfold unpackAt at h
@@ -374,62 +366,21 @@ theorem decodeLoop_error_class (buf : Bytes) : ∀ (fuel off length : Nat) (acc 
           rw [h2] at h
           simp only [ok_bind] at h
           have p1 := parse_size_pos h1
-          exact ih _ _ _ _ (by omega) h
-
-theorem unpackAt_within {buf : Bytes} {a n v : Nat} (hn : 0 < n) (h : unpackAt buf a n = .ok v) : a + n ≤ buf.length := by
-  unfold unpackAt at h
-  simp only at h
-  split at h
-  · rename_i hl
-    simp only [pySlice, List.length_drop, List.length_take] at hl
-    omega
-  · cases h
-
-/-- a TL number that was read lies inside the buffer -/
-theorem parseTlNum_within {buf : Bytes} {off v n : Nat} (h : parseTlNum buf off = .ok (v, n)) : off + n ≤ buf.length := by
-  unfold parseTlNum at h
-  split at h
-  · cases h
-  · rename_i b hb
-    have hlt : off < buf.length := by
-      rcases Nat.lt_or_ge off buf.length with h' | h'
-      · exact h'
-      · rw [List.getElem?_eq_none_iff.mpr h'] at hb; cases hb
-    split at h
-    · cases h; omega
-    · split at h
-      · cases hu : unpackAt buf (off + 1) 2 with
-        | error e => rw [hu] at h; cases h
-        | ok x => rw [hu] at h; cases h; have := unpackAt_within (by omega) hu; omega
-      · split at h
-        · cases hu : unpackAt buf (off + 1) 4 with
-          | error e => rw [hu] at h; cases h
-          | ok x => rw [hu] at h; cases h; have := unpackAt_within (by omega) hu; omega
-        · cases hu : unpackAt buf (off + 1) 8 with
-          | error e => rw [hu] at h; cases h
-          | ok x => rw [hu] at h; cases h; have := unpackAt_within (by omega) hu; omega
+          split at h
+          · cases h; exact .inl rfl
+          · exact ih _ _ _ _ (by omega) h
 
 def castRes (r : List Bytes × Nat) : List Bytes × Int := (r.1, ((r.2 : Nat) : Int))
 
-/-- What the source adds to `Ndn.Name.decode` since the repair of finding F3 (DESIGN.md): the model loop accepts a
-    component that runs past the declared Length of the Name (and then stops); the source raises `IndexError` there.
-    On the model's result that is exactly: the bytes consumed must be header + declared Length. -/
-def endCheck (buf : Bytes) (r : List Bytes × Nat) : Except PyErr (List Bytes × Nat) :=
-  match parseTlNum buf 0 with
-  | .error e => .error e
-  | .ok (_, st) =>
-    match parseTlNum buf st with
-    | .error e => .error e
-    | .ok (length, sl) => if r.2 = st + sl + length then .ok r else .error .indexError
-
 /-- **Name.decode** at offset 0, EVERY byte string: the translated source - two `parse_tl_num`, the Type and Length
-    checks, the `while length > 0` loop with its fuel `length + 1` - is `Ndn.Name.decode` followed by the overrun check
-    above: the same components and the same number of bytes consumed, the same exception class (`ValueError` not a
-    Name, `IndexError`, `struct.error`) wherever the model raises, and `IndexError` where a component runs past the
-    declared Length.  There is no fuel hypothesis: the bound is never exhausted (`decode_fuel_suffices`). -/
+    checks, the `while length > 0` loop with its overrun test and its fuel `length + 1` - IS the hand-written model
+    `Ndn.Name.decode`: the same components and the same number of bytes consumed, the same exception class
+    (`ValueError` not a Name, `IndexError` - also for a component that runs past the declared Length -, `struct.error`).
+    Plain equality: nothing is bolted onto the model.  There is no fuel hypothesis: the bound is never exhausted
+    (`decode_fuel_suffices`). -/
 theorem decode_eq (buf : Bytes) :
-    Gen.NameGen.decode buf 0 = ((Name.decode buf) >>= endCheck buf).map castRes := by
-  simp only [Gen.NameGen.decode, Name.decode, endCheck]
+    Gen.NameGen.decode buf 0 = (Name.decode buf).map castRes := by
+  simp only [Gen.NameGen.decode, Name.decode]
   cases h1 : parseTlNum buf 0 with
   | error e => rw [parse_tl_num_error 0 rfl h1]; rfl
   | ok p1 =>
@@ -457,12 +408,9 @@ theorem decode_eq (buf : Bytes) :
           | error e => rfl
           | ok r =>
             obtain ⟨cs, used⟩ := r
-            simp only [loopSpec, ok_bind, endCheck, h1, h2]
-            by_cases hu : used = st + sl + length
-            · rw [if_pos hu, if_pos hu]
-              simp only [ok_bind, Except.map, castRes]
-              congr 2
-            · rw [if_neg hu, if_neg hu]; rfl
+            simp only [Except.map, loopRes, ok_bind, castRes]
+            show Except.ok _ = Except.ok _
+            congr 2
     · rw [if_pos (by omega), if_pos (by omega)]; rfl
 
 theorem cls_of_parse {e : PyErr} (h : e = .indexError ∨ e = .structError) :
@@ -498,14 +446,7 @@ theorem decode_error_class {buf : Bytes} {e : PyErr} (h : Gen.NameGen.decode buf
   rw [decode_eq] at h
   cases hm : Name.decode buf with
   | error e1 => rw [hm] at h; cases h; exact model_decode_error_class hm
-  | ok r =>
-    rw [hm] at h
-    simp only [ok_bind, endCheck] at h
-    repeat' split at h
-    all_goals (cases h)
-    all_goals first
-      | exact cls_of_parse (parseTlNum_error_class ‹_›)
-      | exact .inr (.inl rfl)
+  | ok r => rw [hm] at h; cases h
 
 theorem decode_fuel_suffices (buf : Bytes) : Gen.NameGen.decode buf 0 ≠ .error .other := by
   intro h; have := decode_error_class h; simp at this
@@ -523,15 +464,22 @@ theorem decode_ok_model {buf : Bytes} {cs : List Bytes} {n : Int} (h : Gen.NameG
   | error e1 => rw [hm] at h; cases h
   | ok r =>
     rw [hm] at h
-    simp only [ok_bind, endCheck] at h
-    repeat' split at h
-    all_goals (cases h)
-    exact ⟨by simp, by omega⟩
+    cases h
+    exact ⟨by simp [castRes], by simp [castRes]⟩
+
+/-- and conversely: what the model accepts, the source accepts with the same components and count -/
+theorem decode_ok_of_model {buf : Bytes} {cs : List Bytes} {n : Nat} (h : Name.decode buf = .ok (cs, n)) :
+    Gen.NameGen.decode buf 0 = .ok (cs, (n : Int)) := by
+  rw [decode_eq, h]; rfl
 
 /-! ### the translated definitions run -/
 example : Gen.NameGen.decode [7, 5, 8, 1, 0x61, 8, 0, 9] 0 = .ok ([[8, 1, 0x61], [8, 0]], 7) := by decide +kernel
-/-- a component that runs past the declared Length of the Name: the model accepts it, the source raises IndexError -/
-example : Gen.NameGen.decode [7, 3, 8, 5, 0x61] 0 = .error .indexError ∧ Name.decode [7, 3, 8, 5, 0x61] = .ok ([[8, 5, 0x61]], 9) := by
+/-- a component that runs past the declared Length of the Name: the source and the model raise IndexError -/
+example : Gen.NameGen.decode [7, 3, 8, 5, 0x61] 0 = .error .indexError ∧ Name.decode [7, 3, 8, 5, 0x61] = .error .indexError := by
+  decide +kernel
+/-- also when the overrunning component lies wholly inside the buffer (Length 3, component of 4 bytes, then more bytes) -/
+example : Gen.NameGen.decode [7, 3, 8, 2, 0x61, 0x62, 8, 0] 0 = .error .indexError ∧
+    Name.decode [7, 3, 8, 2, 0x61, 0x62, 8, 0] = .error .indexError := by
   decide +kernel
 example : Gen.NameGen.decode [6, 0] 0 = .error .valueError := by decide +kernel
 example : Gen.NameGen.decode [7, 0xFD, 1] 0 = .error .structError := by decide +kernel
